@@ -100,6 +100,16 @@ CHECKS = {
     text="The model states what a hostile input may do: close the offending connection exactly like any other ending (16 malformed-packet classes), or be answered without changing anything (11 extreme-parameter request classes), or be rejected silently (cluster payloads) - and that every other connection is served exactly as if nothing had happened, now and in all later steps. Behaviours are replayed on real brokers inside a child process (6 GiB address-space ceiling, watchdog); the death or hang of that process, a panic inside a cluster entry point (mesh does not recover) or any deviation in what the canary clients receive is a violation. Every class also runs once in a fixed canary context and a corpus of mutated gossip / frame payloads (truncation at every offset, every byte forced to 0xFF/0x00/0x7F, bad compression, short keys) is fed to OnGossip, OnGossipBroadcast, OnGossipUnicast, DecodeState, DecodeFrame, DecodeMessage.",
     note="Not covered: arbitrary random byte strings (that is fuzzing, not model-based); the enumerated structural classes and systematic single-byte mutations of valid encodings are. Memory proportionality is judged by the address-space ceiling only. The survey (cluster query) reply path is not driven.",
     ref="4.5, 5/C09"),
+ "C05": dict(
+    level="model_checking", technique="TLA+ spec Gossip.tla (intended design of Swarm + mesh sender: buckets, coalescing, pick, FIFO wires, periodic live-state gossip, relay) model-checked with TLC; TLC-simulated schedules replayed on real broker.Service + cluster.Swarm objects through a transcribed mesh sender; routing tables and wire payloads validated by TLC (Gossip_Trace)",
+    text="TLC checks exhaustively (2 brokers / 3 ops, 3 brokers / 2 ops) that with contract-respecting coalescing every broker's routing table equals the set of brokers with a live local subscriber whenever nothing is queued or in flight. Simulated schedules (client subscribe/unsubscribe bursts, periodic full-state gossip, per-link pick order, FIFO delivery, relays among 3 brokers) are executed on real brokers whose swarms send through a transcription of mesh's gossipSender that calls the real State.Merge/Encode; at every quiescent point the remote entries of every real trie and the activeness of every replica must equal the model's. Schedules in which payloads were coalesced in a sender bucket fail on the current tree because of the listed finding merge_returns_delta and are reported as KNOWN-FINDING; every other rejection is a violation.",
+    note="Full mesh of 2-3 brokers; no link down/up, no peer GC, no forwarding probe yet; the mesh router itself (topology, TCP, goroutines) is replaced by the transcription. About half of the random schedules coalesce and are therefore only checked up to the first coalescing step.",
+    ref="4.6, 5/C05"),
+ "C13": dict(
+    level="model_checking", technique="Crdt.tla delta laws (TLC) + delta returned by every real Merge validated in the CRDT traces (Crdt_Trace!DeltaOK); Gossip.tla union coalescing + abstract content of every payload put on a wire by the transcribed mesh sender validated by TLC (Gossip_Trace!TrPick)",
+    text="First half: TLC checks the delta laws over all value pairs; every Deliver of the CRDT behaviours (C04 machinery, 5 implementations) logs the delta the real Merge returned and TLC demands exactly the times that changed the replica, nil iff nothing changed. Second half: in the gossip schedules every Pick logs what was actually encoded onto the wire and TLC demands that it carries every update queued on that link since the last pick; on the current tree this fails whenever two payloads are coalesced (KNOWN-FINDING merge_returns_delta), any other difference is a violation.",
+    note="Same bounds as C04 and C05. The object-sharing variants (the same payload object queued on several links) are exercised by Notify's broadcast to 2 neighbours in the 3-broker schedules.",
+    ref="4.3, 4.6, 5/C13"),
 }
 
 NOT_YET = "check not built yet in this session (planned, see DESIGN.md section 5); not claimed until its machinery exists"
